@@ -122,7 +122,7 @@ func containsAny(s string, subs ...string) bool {
 // Run01 is the C01 monitor.
 func Run01(r *ev.Run) {
 	r.Rule = "case i = f(seed,i): hostile EncoderConfig x entry x With-chain x call-site fields; each encoded twice (EncodeEntry and IO core over a recording sink); distinct = distinct (config pattern, With depth, field count, fault count) shapes; non-trivial = at least one field or one hostile ingredient"
-	n := r.N(60000, 600000)
+	n := r.N(60000, 4000000)
 	var mu sync.Mutex
 	maxLine := 0
 	var bytesValidated int64
@@ -285,7 +285,7 @@ func mapCompare(c *gen.Case, line []byte) error {
 // Run02 is the C02 monitor.
 func Run02(r *ev.Run) {
 	r.Rule = "case i = f(seed,i): decodable EncoderConfig (built-in or nil sub-encoders) x entry x With-chain x fields; line decoded by the independent parser and compared member by member, in order, with the generator-carried expected tree; every third case uses unique keys and is also compared with zapcore.MapObjectEncoder; distinct = distinct (config, shape) keys; non-trivial = has at least one field"
-	n := r.N(60000, 600000)
+	n := r.N(60000, 4000000)
 	parallel(n, func(i int) {
 		id := fmt.Sprintf("c02/%d", i)
 		if !r.Want(id) {
